@@ -375,7 +375,7 @@ def run_case(case, ctx):
         ctx.transitions += 1
         ctx.states += 1
         try:
-            with ctx.watch(dict(case, only=fault_desc), 60):
+            with ctx.watch(dict(case, only=fault_desc), 180):
                 fn()
             raised = None
         except Exception as e:
